@@ -78,6 +78,8 @@ def gen_table(rng, info: dict, kind: str) -> pd.DataFrame:  # noqa: ANN001
     pool = info["params"] + info["variables"]
     if info["ia"] and rng.random() < 0.8:
         cols.append("x0")
+    if info["ia"] and rng.random() < 0.3:
+        cols.append("k1")  # the scan overrides the parameter that the model computes from an initial value
     while len(cols) < ncol:
         c = rng.choice(pool)
         if c not in cols:
@@ -216,7 +218,7 @@ def run_case(case: dict) -> dict:
     modes += [{"parallel": True, "cores": c} for c in cores]
     viols: list[dict] = []
     counters: dict[str, int] = {f"kind:{kind}": 1, "rows": len(table), "failing_rows_planned": len(fail_rows),
-                                "with_y0": int("y0" in extra), "y0_overlaps_table_column": int(any(v in table.columns for v in extra.get("y0", {})))}
+                                "with_y0": int("y0" in extra), "column_overrides_assignment_defined_parameter": int(info["ia"] and "k1" in table.columns), "y0_overlaps_table_column": int(any(v in table.columns for v in extra.get("y0", {})))}
     ctx = {"kind": kind, "table": {"index": [str(i) for i in table.index], **{c: table[c].tolist() for c in table.columns}},
            "extra": {kk: (v.tolist() if hasattr(v, "tolist") else str(v)) for kk, v in extra.items()}, "ia_model": info["ia"], "spec": spec}
     # ---- oracle per row ------------------------------------------------------
